@@ -217,14 +217,16 @@ where
             );
         }
 
-        // spawn a thread to forward the fingerprints to check
-        handles.push(std::thread::spawn(move || {
+        // spawn a thread to forward the fingerprints to check. It is deliberately not part of
+        // `handles`: it only finishes once the checker (which owns the sending half) is dropped, so
+        // `join` would otherwise wait for it forever.
+        std::thread::spawn(move || {
             for fingerprint in controlflow_to_check_receiver {
                 for sender in &controlflow_channels {
                     let _ = sender.send(fingerprint);
                 }
             }
-        }));
+        });
 
         OnDemandChecker {
             model,
